@@ -233,7 +233,25 @@ impl<'a> Visitor for ReaderVisitor<'a> {
                     *self.local.entry(format!("pending-entry:{k}")).or_insert(0) += 1;
                 }
                 *self.local.entry(format!("header-slot:{} bit:{}", ds.header_slot, ds.header_bit)).or_insert(0) += 1;
-                diff_disk(&ds, &m.w, if replica { m.r.as_ref() } else { None }, None).map(|d| ("reader-disagrees".to_string(), d))
+                let mut v = diff_disk(&ds, &m.w, if replica { m.r.as_ref() } else { None }, None).map(|d| ("reader-disagrees".to_string(), d));
+                if v.is_none() {
+                    // ... and exactly what the API of the live core reports
+                    let core = cx.sys.target(&op);
+                    if core.core.is_some() {
+                        let info = core.c().info();
+                        if info.length != ds.length || (ds.length > 0 && Some(info.byte_length) != ds.byte_length) {
+                            v = Some(("reader-vs-api".to_string(), format!("files encode length {} / byte length {:?}, the API reports {} / {}", ds.length, ds.byte_length, info.length, info.byte_length)));
+                        } else {
+                            for i in 0..ds.length {
+                                if core.c().has(i) != ds.present.contains(&i) {
+                                    v = Some(("reader-vs-api".to_string(), format!("has({i}) = {} but the files say {}", core.c().has(i), ds.present.contains(&i))));
+                                    break;
+                                }
+                            }
+                        }
+                    }
+                }
+                v
             }
         };
         if let Some((clause, detail)) = viol {
@@ -618,8 +636,8 @@ pub fn run(tier: &str) -> i32 {
     // (b') page scale: bitfield files of more than one 4096-byte page, trees of 65k nodes
     {
         let mut bigs: Vec<Vec<Op>> = vec![
-            vec![Op::BatchN(8193), Op::Clear(8190, 8194), Op::Reopen, Op::Append(Blk::P(3, 1))],
-            vec![Op::BatchN(32769), Op::Clear(32766, 32770), Op::Append(Blk::P(2, 1)), Op::Reopen],
+            vec![Op::BatchN(8193), Op::Clear(8190, 8194), Op::Reopen, Op::Append(Blk::P(3, 1)), Op::Reopen],
+            vec![Op::BatchN(32769), Op::Clear(32766, 32770), Op::Append(Blk::P(2, 1)), Op::Reopen, Op::Append(Blk::P(1, 1)), Op::Reopen, Op::Clear(0, 1), Op::Reopen],
         ];
         if !quick {
             bigs.push(vec![Op::BatchN(32768), Op::BatchN(32768), Op::Append(Blk::P(3, 1)), Op::Clear(65534, 65538), Op::Reopen, Op::Clear(100, 40000), Op::Reopen]);
